@@ -86,6 +86,12 @@ def run_d1(chk, repo, D1):
                         if isinstance(par, (ast.Set, ast.Tuple, ast.List, ast.Return)) and fld not in SYMBOL_FIELDS \
                                 and acc == 'free_symbols':
                             ok = False
+                            # ... unless the tuple only lists the fields to loop over (`for e in (self.a, self.b): s |=
+                            # e.free_symbols`, also inside chain(..)): it is in the iterable of a loop / comprehension
+                            for L_ in ast.walk(f.node):
+                                it_ = L_.iter if isinstance(L_, (ast.For, ast.comprehension)) else None
+                                if it_ is not None and any(x is par for x in ast.walk(it_)):
+                                    ok = True
                         if not ok:
                             chk.violation(D1, rel, f.qualname, f'{unparse(par) if par is not None else unparse(n)}',
                                           f'{cname}.{acc} uses the expression field `{fld}` itself instead of its '
